@@ -65,8 +65,42 @@ def rule_instances(ctx):
         ctx.check(eff.is_pure(has), R, "has-pure", "the header match helper is effect-free (treated as a pure predicate)", loc=body_loc(has))
         # structure: filter(name == key).any(value == value)
         calls = [short(callee_path(t) or "") for _, t in has.calls()]
-        ctx.check(any(c.endswith("Iterator::filter") for c in calls) and any(c.endswith("Iterator::any") for c in calls),
-                  R, "has-structure", "helper = fields filtered by name, any value equal", loc=body_loc(has))
+        adaptor_form = any(c.endswith("Iterator::filter") for c in calls) and any(c.endswith("Iterator::any") for c in calls)
+        loop_form = False
+        if not adaptor_form:
+            # the same predicate written as a loop: true exactly on an item whose name equals the key and whose value equals
+            # the value; false only when the fields are exhausted
+            try:
+                Ih = mk_interp(prog, loop_bound=1)
+
+                def init_h(st):
+                    st.write_leaf(("OBJ", "key"), (), ("term", ("in", "key")))
+                    st.write_leaf(("OBJ", "val"), (), ("term", ("in", "val")))
+                outs_h = Ih.run(has, [{(): ("term", ("in", "iter"))}, ref(("OBJ", "key")), ref(("OBJ", "val"))], init_h)
+                okh = True
+                n1 = n0 = 0
+                for o in outs_h:
+                    if o.kind != "return":
+                        continue
+                    eqs = [(k, v[1]) for k, v in o.state.facts.items() if k[0] == "eq" and v[0] == "bool" and "Iterator::next" in repr(k)]
+                    if shape(o.ret) == "1":
+                        n1 += 1
+                        tk = [v for k, v in eqs if "('in', 'key')" in repr(k) and "('f', '0'))" in repr(k)]
+                        tv = [v for k, v in eqs if "('in', 'val')" in repr(k) and "('f', '1'))" in repr(k)]
+                        if not (tk and tv and tk[-1] and tv[-1]):
+                            okh = False
+                    elif shape(o.ret) == "0":
+                        n0 += 1
+                        ex = [v for k, v in o.state.facts.items() if k[0] == "discr" and "Iterator::next" in repr(k)]
+                        if not any(v[1] == frozenset(["None"]) for v in ex):
+                            okh = False
+                    else:
+                        okh = False
+                loop_form = okh and n1 >= 1 and n0 >= 1
+            except (PathLimit, Unsupported):
+                loop_form = False
+        ctx.check(adaptor_form or loop_form, R, "has-structure", "helper = some field has the given name and the given value "
+                  "(filter-by-name + any-value-equal, or the equivalent loop)", loc=body_loc(has))
     # every push site in the crate belongs to one of the recording functions below
     sites = []
     for b in prog.nonderived_bodies():
